@@ -1,6 +1,55 @@
-import BstreamVerif.Model.Forkable
-import BstreamVerif.Spec.Consumer
+import BstreamVerif.Lemmas.StepCheckSound
+/-!
+# C04 — every delivered event carries a cursor describing the consumer position exactly
+
+An event of the model is (step, block, head, lib, junction): the cursor's step and block are the event's by
+construction of the encoding (the correspondence check compares the implementation's cursor fields with it).
+Here: the head is the incoming block, for every state, block and handler failure point; Irreversible events carry
+themselves as LIB; New/Undo events carry the forkable's cursor LIB; and the junction named by the Undo events is the
+common ancestor of the abandoned and the adopted branch — the block the consumer's chain rests on once the undos
+are applied. LIB monotonicity along a stream and the burst/file cursors are checked by the monitors (C05/C06 suites).
+-/
 namespace BstreamVerif.Props.C04
-open BstreamVerif BstreamVerif.Forkable BstreamVerif.Consumer
+open BstreamVerif BstreamVerif.Forkable BstreamVerif.ForkDB
+
+/-- the head block of every cursor is the incoming block that caused the delivery -/
+theorem head_is_incoming_block (cfg : Config) (s : FState) (b : Blk) (f : Option Nat) :
+    ∀ e ∈ (processBlock cfg s b f).2.1, e.head = b.ref := processBlock_head cfg s b f
+
+/-- an Irreversible event's cursor LIB is the block itself -/
+theorem irreversible_lib_is_itself (cfg : Config) (seg : List Entry) (head : Ref) (actual : Id → Option Blk) :
+    ∀ e ∈ irrEvents cfg seg head actual, e.step = .irreversible ∧ e.lib = e.blk.ref := by
+  intro e he
+  unfold irrEvents at he
+  split at he
+  · obtain ⟨i, hi, rfl⟩ := List.getElem_of_mem he
+    simp
+  · simp at he
+
+/-- Undo and re-delivered New events carry the forkable's cursor LIB (last irreversible announced, or the starting LIB) -/
+theorem switch_events_lib (step : Step) (es : List Entry) (head lib : Ref) (j : Option Ref) :
+    ∀ e ∈ mkEvents step es head lib j, e.lib = lib ∧ e.step = step ∧ e.junction = j := by
+  intro e he
+  unfold mkEvents at he
+  obtain ⟨i, hi, rfl⟩ := List.getElem_of_mem he
+  simp
+
+/-- **the junction is the common ancestor**: at a chain switch from the consumer's chain `P` (LIB → old head) to the
+    chain `L` of the new block's parent, the undo list is the part of `P` above the junction, newest first; the redo
+    list is the part of `L` above it; and the junction is the top of their common part `Pj` — what the consumer rests
+    on after the undos. -/
+theorem junction_is_common_ancestor (db : DB) (hwf : WfEntries db) (hh : Heights db) (hlib : db.libRef.id ≠ "")
+    (P L : List Id) (hP : IsPath db db.libRef.id P) (hPn : db.libRef.id ∉ P)
+    (hL : IsPath db db.libRef.id L) (hLn : db.libRef.id ∉ L) :
+    ∃ undo redo j Pj, db.chainSwitchSegments (topOf db.libRef.id P) (topOf db.libRef.id L) = some (undo, redo, j) ∧
+      P = Pj ++ undo.reverse ∧ L = Pj ++ redo ∧ topOf db.libRef.id Pj = j :=
+  chainSwitch_shape db hwf hh hlib P L hP hPn hL hLn
+
+/-- whatever the buffer holds, the segments are parent-linked and meet at the junction -/
+theorem segments_meet_at_junction (db : DB) (oldHead newPrev : Id) (undo redo : List Id) (j : Id)
+    (h : db.chainSwitchSegments oldHead newPrev = some (undo, redo, j)) :
+    IsDown db (undo ++ [j]) ∧ IsPath db j redo ∧ topOf j redo = newPrev ∧ j ∉ undo ∧ (undo = [] → j = oldHead) := by
+  obtain ⟨_, h2, _, h4, h5, h6, _, h8⟩ := chainSwitchSegments_sound db oldHead newPrev undo redo j h
+  exact ⟨h2, h5, h6, h8, h4⟩
 
 end BstreamVerif.Props.C04
